@@ -77,6 +77,17 @@ func (e *Engine) expandQuantifiers(fs []*Term) []*Term {
 					for i, a := range t.args {
 						if i >= 1 && a.sort == IntSort {
 							cands[a.id] = a
+							// the Go-level index is the memory index minus the slice offset:
+							// offer the sum without each single addend as well
+							if a.op == "bvadd" {
+								for k := range a.args {
+									rest := make([]*Term, 0, len(a.args)-1)
+									rest = append(rest, a.args[:k]...)
+									rest = append(rest, a.args[k+1:]...)
+									r := bvSum(a.sort, rest...)
+									cands[r.id] = r
+								}
+							}
 						}
 					}
 				}
